@@ -8,6 +8,7 @@ import (
 	"bytes"
 	"context"
 	"database/sql"
+	"errors"
 	"flag"
 	"fmt"
 	"io"
@@ -16,12 +17,14 @@ import (
 	"path/filepath"
 	"sort"
 	"sync/atomic"
+	"time"
 
 	_ "github.com/mattn/go-sqlite3"
 	f_note "github.com/transparency-dev/formats/note"
 	"github.com/transparency-dev/witness/internal/persistence"
 	"github.com/transparency-dev/witness/internal/persistence/inmemory"
 	psql "github.com/transparency-dev/witness/internal/persistence/sql"
+	"github.com/transparency-dev/witness/internal/verif/kit/ev"
 	"github.com/transparency-dev/witness/internal/verif/kit/gen"
 	"github.com/transparency-dev/witness/internal/verif/kit/refnote"
 	"github.com/transparency-dev/witness/internal/verif/kit/refwitness"
@@ -61,6 +64,8 @@ type Store struct {
 	P    persistence.LogStatePersistence
 	DB   *sql.DB // nil for mem
 	Path string
+	// Wedged: a call on this store never returned; the handle is never closed (sql.DB.Close would wait for it).
+	Wedged atomic.Bool
 }
 
 // NewStore opens a fresh store of the given kind; dir is used for sqlfile.
@@ -86,9 +91,51 @@ func NewStore(kind, dir string) (*Store, error) {
 }
 
 func (s *Store) Close() {
-	if s.DB != nil {
+	if s.DB != nil && !s.Wedged.Load() {
 		s.DB.Close()
 	}
+}
+
+// ErrWedged is the error of a guarded witness call that did not return.
+var ErrWedged = errors.New("verif: the call did not return")
+
+// WedgeAfter is how long a guarded call may run before the pool is inspected. The harnesses that use the
+// guard have exactly one request in flight, so a call that waits for a database connection while every
+// connection is in use can only be waiting for a transaction an EARLIER, finished request left open.
+var WedgeAfter = 15 * time.Second
+
+// WedgeHandler decides what a call that never returned means for the running check. proven: the pool
+// inspection showed all connections in use and a queued waiter. The default makes the run inconclusive
+// (the property at hand cannot be evaluated) and stops dispatching units; C08 replaces it, because there a
+// witness that no longer accepts anything is the violation itself.
+var WedgeHandler = func(desc string, proven bool) {
+	if run := ev.Current(); run != nil {
+		run.Inconclusive("a witness call never returned: " + desc)
+		run.Abort()
+	}
+}
+
+// Guarded runs f; if it does not return within WedgeAfter the store is marked wedged, the handler is
+// told, and a description is returned (f keeps running in its goroutine).
+func (s *Store) Guarded(f func()) string {
+	done := make(chan struct{})
+	go func() { f(); close(done) }()
+	t := time.NewTimer(WedgeAfter)
+	defer t.Stop()
+	select {
+	case <-done:
+		return ""
+	case <-t.C:
+	}
+	s.Wedged.Store(true)
+	desc, proven := "no pool to inspect ("+s.Kind+" store)", false
+	if s.DB != nil {
+		st := s.DB.Stats()
+		desc = fmt.Sprintf("pool: %d of %d connections in use, %d requests have queued for one", st.InUse, st.MaxOpenConnections, st.WaitCount)
+		proven = st.MaxOpenConnections > 0 && st.InUse >= st.MaxOpenConnections && st.WaitCount > 0
+	}
+	WedgeHandler(desc, proven)
+	return desc
 }
 
 // WitKeys is a witness key set with its reference-side identities.
@@ -315,6 +362,8 @@ type Step struct {
 	Class     refwitness.Class
 	OutClaim  bool
 	Ambiguous bool
+	// Wedged: the Update never returned (see Store.Guarded); Err is ErrWedged and After is Before.
+	Wedged string
 }
 
 // Do runs one request and fills in the reference model's view of it.
@@ -342,11 +391,24 @@ func (rn *Runner) DoWith(q *gen.Request, before *Snapshot, afterUpdate func()) *
 	st.OutClaim = refwitness.OutOfClaim(st.Pre, mr)
 	st.Ambiguous = q.Ambiguous || (st.Authentic && (q.CPKind == "mutated" || q.CPKind == "garbage"))
 
-	st.Ret, st.Err = rn.W.Update(context.Background(), q.LogID, q.OldSize, q.CP, q.Proof)
+	var ret []byte
+	var uerr error
+	if wd := rn.Store.Guarded(func() { ret, uerr = rn.W.Update(context.Background(), q.LogID, q.OldSize, q.CP, q.Proof) }); wd != "" {
+		st.Wedged, st.Err, st.After = wd, ErrWedged, before
+		if afterUpdate != nil {
+			afterUpdate()
+		}
+		return st
+	}
+	st.Ret, st.Err = ret, uerr
 	if afterUpdate != nil {
 		afterUpdate()
 	}
-	st.After = rn.Snap()
+	// the read-back can be the first operation to meet a transaction the request left open
+	if wd := rn.Store.Guarded(func() { st.After = rn.Snap() }); wd != "" {
+		st.Wedged, st.After = "the read-back after the request never returned; "+wd, before
+		return st
+	}
 	// The model follows the implementation's stored state (read back), not its
 	// own prediction, so one divergence is reported once and not at every later step.
 	if l, ok := rn.logByID(q.LogID); ok {
